@@ -5,6 +5,7 @@ import (
 
 	"verif/internal/fw"
 	"verif/internal/gen"
+	"verif/internal/refsem"
 	"verif/internal/step"
 )
 
@@ -40,8 +41,77 @@ func c03Graph(n, m, k int) *gen.Graph {
 	return g
 }
 
+// c03Pipe: two producers deliver two tokens each on their own incoming flow of G, at moments the answer order
+// chooses: start -> fork -> {fA -> a1,a2 -> mA -> G ; fB -> b1,b2 -> mB -> G}; G(2,M) -> d1..dM -> J(M,1) -> tl -> end.
+// G must not release while one of its incoming flows has no token, however many arrived on the other.
+func c03Pipe(m int) *gen.Graph {
+	g := gen.NewGraph("c03p")
+	s := g.Add(gen.Start, "start", "")
+	fork := g.Add(gen.And, "fork", "")
+	gw := g.Add(gen.And, "G", "")
+	g.Connect(s, fork, nil)
+	for _, x := range []string{"a", "b"} {
+		f := g.Add(gen.And, "f"+x, "")
+		mg := g.Add(gen.Xor, "m"+x, "")
+		g.Connect(fork, f, nil)
+		for i := 1; i <= 2; i++ {
+			t := g.Add(gen.Task, fmt.Sprintf("%s%d", x, i), "")
+			g.Connect(f, t, nil)
+			g.Connect(t, mg, nil)
+		}
+		g.Connect(mg, gw, nil)
+	}
+	join := g.Add(gen.And, "J", "")
+	for j := 1; j <= m; j++ {
+		d := g.Add(gen.Task, fmt.Sprintf("d%d", j), "")
+		g.Connect(gw, d, nil)
+		g.Connect(d, join, nil)
+	}
+	tl := g.Add(gen.Task, "tl", "")
+	end := g.Add(gen.End, "end", "")
+	g.Connect(join, tl, nil)
+	g.Connect(tl, end, nil)
+	return g
+}
+
 func c03Cases(tier string, seed uint64) []fw.Case {
 	var cs []fw.Case
+	// pipelined arrivals: every order in which the four producer tasks finish, downstream tasks answered as they appear
+	ups := []string{"a1", "a2", "b1", "b2"}
+	for m := 1; m <= 3; m++ {
+		g := c03Pipe(m)
+		for _, perm := range fw.Permutations(4) {
+			ref := refsem.New(g, nil, nil)
+			ref.StartAll()
+			var order []string
+			for _, pi := range perm {
+				order = append(order, ups[pi])
+				ref.Answer(ups[pi], nil)
+				for guard := 0; guard < 20; guard++ {
+					next := ""
+					for _, t := range ref.PendingList() {
+						if t[0] == 'd' || t == "tl" {
+							next = t
+							break
+						}
+					}
+					if next == "" {
+						break
+					}
+					order = append(order, next)
+					ref.Answer(next, nil)
+				}
+			}
+			sc := step.Case{Name: fmt.Sprintf("pipe-M%d-%v", m, perm), G: g, Order: order, Family: "pipelined"}
+			cs = append(cs, fw.MkCase("stepwise", &sc))
+		}
+		reps := 3
+		if tier == "thorough" {
+			reps = 30
+		}
+		sc := step.Case{Name: fmt.Sprintf("storm-pipe-M%d", m), G: g, Storm: true, Hooks: 0.3, Reps: reps, Family: "pipelined"}
+		cs = append(cs, fw.MkCase("storm", &sc))
+	}
 	for n := 1; n <= 4; n++ {
 		for m := 1; m <= 4; m++ {
 			for k := 1; k <= 3; k++ {
@@ -78,7 +148,7 @@ func init() {
 		Run: func(c fw.Case, env *fw.Env) *fw.V {
 			return runStep("C03", c, env, conservation)
 		},
-		Rule: "enumerated: all N,M in 1..4 x all N! finishing orders of the upstream tasks x k in 1..3 activations (396 stepwise cases, engine compared with the reference token game at every quiescent step) + storm runs with concurrent answers per shape; non-trivial = gateway present and >=2 requests pending at once or a condition routed (all cases with N>1 or M>1, plus loops); distinct = distinct descriptor hash",
+		Rule: "enumerated: all N,M in 1..4 x all N! finishing orders of the upstream tasks x k in 1..3 activations (396 stepwise cases, engine compared with the reference token game at every quiescent step) + pipelined arrivals (two producers delivering two tokens each on their own incoming flow of a 2 x M gateway, all 24 finishing orders: the gateway must not release while one incoming flow is empty, however many tokens arrived on the other) + storm runs with concurrent answers per shape; non-trivial = gateway present and >=2 requests pending at once or a condition routed (all cases with N>1 or M>1, plus loops); distinct = distinct descriptor hash",
 		Exhaustive: func(string) bool { return true },
 		Assumptions: []string{"reference token game (internal/refsem) is the oracle for observed requests", "quiescence = all labelled goroutines blocked in one stop-the-world snapshot, twice in a row"},
 	})
